@@ -1015,11 +1015,11 @@ class FnEmitter:
                 it = p.parse_type(); idx.append((it, p.parse_value(it)))
             d.update(ty=PtrT(IntT(8)), bt=bt, base=base, idx=idx)
         elif op == 'load':
-            p.accept('volatile')
+            p.accept('atomic'); p.accept('volatile')
             t = p.parse_type(); p.expect(','); pt = p.parse_type(); a = p.parse_value(pt)
             d.update(ty=t, ptr=a)
         elif op == 'store':
-            p.accept('volatile')
+            p.accept('atomic'); p.accept('volatile')
             t = p.parse_type(); x = p.parse_value(t); p.expect(','); pt = p.parse_type(); a = p.parse_value(pt)
             d.update(ty=None, vty=t, x=x, ptr=a)
         elif op == 'alloca':
@@ -1054,6 +1054,8 @@ class FnEmitter:
             t = p.parse_type()
             d.update(ty=None, rty=t, x=None if isinstance(t, VoidT) else p.parse_value(t))
         elif op == 'unreachable':
+            d.update(ty=None)
+        elif op == 'fence':
             d.update(ty=None)
         elif op == 'resume':
             t = p.parse_type(); x = p.parse_value(t); d.update(ty=None)
@@ -1187,6 +1189,8 @@ class FnEmitter:
             return ['return %s;' % self.val(d['rty'], d['x'])]
         if op == 'unreachable':
             return ['vf_unreachable(); %s' % self.zero_ret()]
+        if op == 'fence':
+            return ['/* fence */;']
         if op == 'resume':
             return ['vf_exc_pending = 1; %s' % self.zero_ret()]
         if op == 'landingpad':
@@ -1368,12 +1372,13 @@ class FnEmitter:
                 ls.append('if (vf_exc_pending) %s' % self.zero_ret())
         return ls
 
-NOTHROW_EXT = {'_ZNSt9exceptionD2Ev', '_ZNSt9exceptionD1Ev', '_ZNSt14overflow_errorD1Ev', '_ZNSt12out_of_rangeD1Ev', '_ZNSt13runtime_errorD2Ev', '_ZNSt11logic_errorD2Ev', '_ZNSt9bad_allocD1Ev', '_ZNSt14overflow_errorC1EPKc', '_ZNSt12out_of_rangeC1EPKc', '_ZNSt12length_errorC1EPKc',
+NOTHROW_EXT = {'__cxa_guard_acquire', '__cxa_guard_release', '__cxa_guard_abort', '__cxa_atexit', '_ZNSt9exceptionD2Ev', '_ZNSt9exceptionD1Ev', '_ZNSt14overflow_errorD1Ev', '_ZNSt12out_of_rangeD1Ev', '_ZNSt13runtime_errorD2Ev', '_ZNSt11logic_errorD2Ev', '_ZNSt9bad_allocD1Ev', '_ZNSt14overflow_errorC1EPKc', '_ZNSt12out_of_rangeC1EPKc', '_ZNSt12length_errorC1EPKc',
                '_ZSt18_Rb_tree_incrementPKSt18_Rb_tree_node_base', '_ZSt18_Rb_tree_decrementPSt18_Rb_tree_node_base', '_ZSt18_Rb_tree_incrementPSt18_Rb_tree_node_base', '_ZSt18_Rb_tree_decrementPKSt18_Rb_tree_node_base', '_ZSt29_Rb_tree_insert_and_rebalancebPSt18_Rb_tree_node_baseS0_RS_', '_ZSt28_Rb_tree_rebalance_for_erasePSt18_Rb_tree_node_baseRS_',
                'malloc', 'free', 'realloc', 'memcpy', 'memmove', 'memset', 'memcmp', 'bcmp', 'strlen', '_ZdlPv', '_ZdlPvm', '_ZdaPv',
                '_ZnwmRKSt9nothrow_t', 'vf_nondet_u8', 'vf_nondet_u16', 'vf_nondet_u32', 'vf_nondet_u64', 'vf_assume', 'vf_assert',
                'vf_note', 'vf_reach', 'vf_on_write', 'vf_on_read', 'vf_havoc', 'vf_heap_reset', 'vf_obs'}
-EXT_MAP = {'_ZNSt9exceptionD2Ev': 'vf_nop1', '_ZNSt9exceptionD1Ev': 'vf_nop1', '_ZNSt14overflow_errorD1Ev': 'vf_nop1', '_ZNSt12out_of_rangeD1Ev': 'vf_nop1', '_ZNSt13runtime_errorD2Ev': 'vf_nop1', '_ZNSt11logic_errorD2Ev': 'vf_nop1', '_ZNSt9bad_allocD1Ev': 'vf_nop1',
+EXT_MAP = {'__cxa_guard_acquire': 'vf_guard_acquire', '__cxa_guard_release': 'vf_guard_release', '__cxa_guard_abort': 'vf_nop1', '__cxa_atexit': 'vf_atexit',
+           '_ZNSt9exceptionD2Ev': 'vf_nop1', '_ZNSt9exceptionD1Ev': 'vf_nop1', '_ZNSt14overflow_errorD1Ev': 'vf_nop1', '_ZNSt12out_of_rangeD1Ev': 'vf_nop1', '_ZNSt13runtime_errorD2Ev': 'vf_nop1', '_ZNSt11logic_errorD2Ev': 'vf_nop1', '_ZNSt9bad_allocD1Ev': 'vf_nop1',
            '_ZNSt14overflow_errorC1EPKc': 'vf_nop2', '_ZNSt12out_of_rangeC1EPKc': 'vf_nop2', '_ZNSt12length_errorC1EPKc': 'vf_nop2', '_ZNSt9bad_allocC1Ev': 'vf_nop1',
            '_ZSt18_Rb_tree_incrementPKSt18_Rb_tree_node_base': 'vf_rb_inc', '_ZSt18_Rb_tree_decrementPSt18_Rb_tree_node_base': 'vf_rb_dec',
            '_ZSt18_Rb_tree_incrementPSt18_Rb_tree_node_base': 'vf_rb_inc', '_ZSt18_Rb_tree_decrementPKSt18_Rb_tree_node_base': 'vf_rb_dec',
